@@ -472,6 +472,39 @@ def rule_relex_window(prog):
         out.add("lexer::lex", "token ranges refer to the text that was handed in", bool(a0) and a0["id"] == pid, c.loc(spans[0]["sp"]),
                 "the Span the tokens take their ranges from is not built over the `src` parameter itself: a trimmed or re-sliced input "
                 "shifts every range against the text the caller (AnalyzedSource.text, lexer::update, the features) keeps", ("lexinput",))
+    # the tail of old tokens that survives: when its start is an index found by a search (`position(..)`), a failed search means that
+    # re-lexing ran to the end of the text without meeting an old token - *no* old token survives.  A default of 0 keeps all of them
+    defs_ = {}
+    for l_ in hir.nodes(b["body"], "Let"):
+        if l_["pat"].get("k") == "Binding" and l_.get("init") is not None:
+            defs_[l_["pat"]["id"]] = l_["init"]
+    for mc in hir.nodes(b["body"], "MethodCall"):
+        if mc["m"] not in ("split_off", "skip", "drain") or "Token" not in c.tstr(hir.strip(mc["recv"])["t"]) or not mc["args"]:
+            continue
+        roots, seen_ = [mc["args"][0]], set()
+        default_zero = None
+        from_search = False
+        while roots:
+            r_ = roots.pop()
+            for x in hir.nodes(r_):
+                pl_ = hir.path_local(x)
+                if pl_ and pl_["id"] in defs_ and pl_["id"] not in seen_:
+                    seen_.add(pl_["id"])
+                    roots.append(defs_[pl_["id"]])
+                if x.get("k") == "MethodCall" and x["m"] in ("position", "rposition", "find_map"):
+                    from_search = True
+                if x.get("k") == "MethodCall" and (x["m"] == "unwrap_or_default" or (x["m"] == "unwrap_or" and x["args"] and hir.lit_value(hir.strip(x["args"][0])) in ("0", 0))):
+                    default_zero = x
+        # the searched index may also be assigned inside a closure (`tail_start = ..position(..)`)
+        for as_ in hir.nodes(b["body"], "Assign"):
+            pl_ = hir.path_local(hir.strip(as_["l"]))
+            if pl_ and pl_["id"] in seen_ | {(hir.path_local(hir.strip(mc["args"][0])) or {}).get("id")} and \
+                    any(x.get("k") == "MethodCall" and x["m"] in ("position", "rposition") for x in hir.nodes(as_["r"])):
+                from_search = True
+        if default_zero is not None:
+            out.add("lexer::update", "a failed search for the start of the surviving tail keeps no old token", not from_search or False,
+                    c.loc(default_zero["sp"]), "the tail of old tokens starts at an index found by a search and defaults to 0 when nothing is found: "
+                    "re-lexing that reaches the end of the text without meeting an old token keeps *all* old tokens behind the new ones", ("tail",))
     return out
 
 
@@ -1174,6 +1207,66 @@ def rule_position_token(prog):
                     ("comment", "stmt"))
     if m < 1:
         out.missing("statement search by cursor position in features::completion (found %d)" % m)
+    # brackets nest: the *first* closing bracket of a token slice is not the one that closes the construct.  A first-match search
+    # (`find` / `position` / `take_while` up to it) whose predicate accepts closing brackets only is wrong as soon as an argument or a
+    # condition contains parentheses (`f(g(1), |)`, `if ((a) |)`), an index an index, a block a block
+    CLOSERS = {"RParen", "RBracket", "RCurly"}
+    for b in prog.lsp.bodies:
+        if not b["p"].startswith("lsp4spl::features") or "/tests" in c.file_of(b["sp"]) or b["k"] == "closure":
+            continue
+        for mc in hir.nodes(b["body"], "MethodCall"):
+            if mc["m"] not in ("find", "position", "take_while", "skip_while", "find_map") or not mc["args"]:
+                continue
+            if "Token" not in c.tstr(hir.strip(mc["recv"])["t"]):
+                continue
+            kinds = set()
+            other = False
+            for x in hir.nodes(mc["args"][0]):
+                pats = [a_["pat"] for a_ in x["arms"] if hir.lit_value(a_["body"]) is True] if x.get("k") == "Match" else [x["pat"]] if x.get("k") == "LetExpr" else []
+                for pt in pats:
+                    for v_ in hir.pat_variants_all(pt):
+                        if v_.startswith("spl_frontend::tokens::TokenType::"):
+                            kinds.add(last(v_))
+                if x.get("k") == "Binary" and x["op"] == "==":
+                    for y in hir.nodes(x, "Path"):
+                        co = y["res"].get("ctor_of", "")
+                        if co.startswith("spl_frontend::tokens::TokenType::"):
+                            kinds.add(last(co))
+                        elif y["res"].get("k") == "Local" and "TokenType" in c.tstr(y["t"]) and "Token>" not in c.tstr(y["t"]):
+                            other = True     # compared with a kind handed in from outside: unknown
+            if kinds and kinds <= CLOSERS and not other:
+                out.add(b["d"], "the closing bracket of a construct is not searched as the first closing bracket of its tokens", False, c.loc(mc["sp"]),
+                        "`.%s(..)` stops at the first %s of the slice; brackets nest, so for `f(g(1), 2)` / `a[b[0]]` this is the inner one and "
+                        "everything behind it is treated as outside the construct" % (mc["m"], "/".join(sorted(kinds))), ("nest",))
+    # the token that ends the file's last declaration: picked from a slice that runs to the end of the file, it must skip comments
+    for b in prog.lsp.bodies:
+        if not b["p"].startswith("lsp4spl::features::completion") or "/tests" in c.file_of(b["sp"]):
+            continue
+        defs_ = {}
+        for l_ in hir.nodes(b["body"], "Let"):
+            if l_["pat"].get("k") == "Binding" and l_.get("init") is not None:
+                defs_[l_["pat"]["id"]] = l_["init"]
+
+        def open_ended(e, depth=0):
+            e = hir.strip_ref(e)
+            while e.get("k") == "MethodCall" and e["m"] in ("iter", "as_slice", "as_ref", "rev"):
+                e = hir.strip_ref(e["recv"])
+            if e.get("k") == "Index":
+                idx = hir.strip(e["idx"])
+                return idx.get("k") == "Struct" and "RangeFrom" in (idx.get("adt") or "")
+            pl_ = hir.path_local(e)
+            if pl_ and pl_["id"] in defs_ and depth < 3:
+                return open_ended(defs_[pl_["id"]], depth + 1)
+            return False
+        for mc in hir.nodes(b["body"], "MethodCall"):
+            if mc["m"] not in ("last", "rfind", "next_back") or "Token" not in c.tstr(hir.strip(mc["recv"])["t"]):
+                continue
+            if not open_ended(mc["recv"]):
+                continue
+            skips = mc["m"] == "rfind" and mc["args"] and tests_comment(mc["args"][0], c)
+            out.add(b["d"], "the last token of an open-ended token slice is taken comment-blind", bool(skips), c.loc(mc["sp"]),
+                    "the slice runs to the end of the file, where comments behind the last declaration live: the token picked as `the end of "
+                    "the declaration` can be a comment, and the classification that follows (`;` / `}` expected) goes wrong", ("comment",))
     # a comment never decides *that nothing is proposed*: no branch of the completion code whose condition inspects comment tokens
     # ends in `None` / an empty answer.  (A comment token covers its line break, and the position that is classified is the cursor
     # offset minus one: "the cursor is inside a comment" is also true in column 0 of the line below every comment.)
